@@ -13,6 +13,7 @@
 
    No proofs here (CONVENTIONS: the model must compile alone). *)
 From Coq Require Import ZArith Bool String List.
+From Coq Require Decimal.
 From SV Require Import Common.GoInt.
 Import ListNotations.
 Open Scope Z_scope.
@@ -88,6 +89,7 @@ Inductive ty :=
 | TU64                     (* uint64:          e.uint64(x)         <->  d.uint64()       *)
 | TBool                    (* bool:            e.int(b2i(b))       <->  d.int() != 0     *)
 | TStr                     (* string / []byte: e.string / e.bytes  <->  d.string / d.bytes *)
+| TBig                     (* *big.Int:        e.string(c.Text(10)) <->  new(big.Int).SetString(d.string(), 10) *)
 | TList (elem : ty)        (* e.int(len(l)); for ... { elem }     <->  make([]T, d.count()); for ... *)
 | TRec (fields : list (string * ty))   (* fields in wire order, each with the Go field it carries *)
 | TUnion (alts : list (string * ty)).  (* e.int(tag); payload     <->  switch d.int() { case tag: ... };
@@ -97,10 +99,59 @@ Inductive val :=
 | VInt (z : Z)
 | VBool (b : bool)
 | VStr (s : bytes)
+| VBig (z : Z)             (* an arbitrary-precision integer *)
 | VList (l : list val)
 | VRec (l : list val)
 | VAlt (tag : Z) (v : val)
 | VNil.                    (* what the decoder's switch leaves for an unknown tag: a nil constant *)
+
+(* big.Int.Text(10): optional '-', then the decimal digits without leading
+   zeros ("0" for zero).  Built on the standard library's Z.to_int / Z.of_int
+   (Decimal.int is the list of decimal digits). *)
+Fixpoint uint_bytes (u : Decimal.uint) : bytes :=
+  match u with
+  | Decimal.Nil => []
+  | Decimal.D0 r => 48 :: uint_bytes r | Decimal.D1 r => 49 :: uint_bytes r | Decimal.D2 r => 50 :: uint_bytes r
+  | Decimal.D3 r => 51 :: uint_bytes r | Decimal.D4 r => 52 :: uint_bytes r | Decimal.D5 r => 53 :: uint_bytes r
+  | Decimal.D6 r => 54 :: uint_bytes r | Decimal.D7 r => 55 :: uint_bytes r | Decimal.D8 r => 56 :: uint_bytes r
+  | Decimal.D9 r => 57 :: uint_bytes r
+  end.
+Definition print_dec (z : Z) : bytes :=
+  match Z.to_int z with
+  | Decimal.Pos u => uint_bytes u
+  | Decimal.Neg u => 45 :: uint_bytes u
+  end.
+
+(* big.Int.SetString(s, 10): optional sign '+' or '-', then one or more decimal
+   digits (leading zeros allowed); anything else fails: (nil, false). *)
+Fixpoint bytes_uint (bs : bytes) : option Decimal.uint :=
+  match bs with
+  | [] => Some Decimal.Nil
+  | b :: r =>
+      match bytes_uint r with
+      | None => None
+      | Some u =>
+          if b =? 48 then Some (Decimal.D0 u) else if b =? 49 then Some (Decimal.D1 u) else if b =? 50 then Some (Decimal.D2 u)
+          else if b =? 51 then Some (Decimal.D3 u) else if b =? 52 then Some (Decimal.D4 u) else if b =? 53 then Some (Decimal.D5 u)
+          else if b =? 54 then Some (Decimal.D6 u) else if b =? 55 then Some (Decimal.D7 u) else if b =? 56 then Some (Decimal.D8 u)
+          else if b =? 57 then Some (Decimal.D9 u) else None
+      end
+  end.
+Definition parse_digits (neg : bool) (bs : bytes) : option Z :=
+  match bs with
+  | [] => None
+  | _ => match bytes_uint bs with
+         | Some u => Some (Z.of_int (if neg then Decimal.Neg u else Decimal.Pos u))
+         | None => None
+         end
+  end.
+Definition parse_dec (bs : bytes) : option Z :=
+  match bs with
+  | [] => None
+  | b :: r => if b =? 45 then parse_digits true r
+              else if b =? 43 then parse_digits false r
+              else parse_digits false bs
+  end.
 
 Inductive err :=
 | EPanic (why : string)    (* a Go run-time panic, turned into an error by DecodeProgram's recover *)
@@ -167,6 +218,7 @@ Fixpoint enc (t : ty) (v : val) {struct t} : result out :=
   | TU64, VInt z => e_uint64 z
   | TBool, VBool b => e_int (if b then 1 else 0)
   | TStr, VStr s => e_str s
+  | TBig, VBig z => e_str (print_dec z)
   | TList te, VList l => obind (e_int (Z.of_nat (length l))) (enc_elems (enc te) l)
   | TRec fs, VRec l => enc_fields enc fs l
   | TUnion alts, VAlt tag v =>
@@ -252,6 +304,8 @@ Fixpoint dec (t : ty) (d : dst) {struct t} : result (val * dst) :=
   | TU64 => rmap VInt (d_uint64 d)
   | TBool => rmap (fun x => VBool (negb (x =? 0))) (d_int d)
   | TStr => rmap VStr (d_str d)
+  | TBig =>   (* c, _ = new(big.Int).SetString(d.string(), 10): on failure c is a nil *big.Int, no error *)
+      rmap (fun s => match parse_dec s with Some z => VBig z | None => VNil end) (d_str d)
   | TList te =>
       match d_int d with
       | Err e => Err e
@@ -312,6 +366,7 @@ Fixpoint wt (t : ty) (v : val) {struct t} : bool :=
   | TU64, VInt z => in_uint64 z
   | TBool, VBool _ => true
   | TStr, VStr s => (Z.of_nat (length s) <=? max_int64) && forallb is_byte s
+  | TBig, VBig z => Z.of_nat (length (print_dec z)) <=? max_int64
   | TList te, VList l => (Z.of_nat (length l) <=? max_int64) && forallb (wt te) l
   | TRec fs, VRec l => wt_fields wt fs l
   | TUnion alts, VAlt tag v => (0 <=? tag) && (tag <=? max_int64) && wt_alt wt v alts (Z.to_nat tag)
